@@ -3,6 +3,7 @@ import Driver.Rid
 import Driver.Evq
 import Driver.EvqConc
 import Driver.StreamD
+import Driver.NetD
 /-! `mio-driver`: reads one case per line (`<model> <args…>`), prints what the model computes.
 Imports model files only (no Mathlib, no lemma files), so it links as a native executable. -/
 open Mio Mio.Driver
@@ -15,6 +16,7 @@ def dispatch (line : String) : String :=
   | "rid" :: ws => runRid ws
   | "vq" :: ws => runVq2 ws
   | "stream" :: ws => runStream ws
+  | "net" :: ws => runNet ws
   | _ => "bad-case"
 
 partial def loop (h : IO.FS.Stream) (out : IO.FS.Stream) : IO Unit := do
